@@ -859,7 +859,7 @@ class Program:
                 out.append((c, k))
         return out
 
-    def view(self, body, keep=None, tag='default', upvar_consts=None):
+    def view(self, body, keep=None, tag='default', upvar_consts=None, max_depth=3):
         """the body with private helpers and combinator closures inlined (see inline.py); cached"""
         import inline
         if not hasattr(self, '_views'):
@@ -867,7 +867,7 @@ class Program:
         k = (body.id, tag)
         if k not in self._views:
             kp = keep or (lambda g: g.is_pub)
-            v = inline.Inliner(self, kp).view(body, upvar_consts=upvar_consts)
+            v = inline.Inliner(self, kp, max_depth=max_depth).view(body, upvar_consts=upvar_consts)
             self._views[k] = v if v.j.get('inlined') else body
         return self._views[k]
 
